@@ -50,6 +50,10 @@ CHECKS = {
          "For all interleavings: lock/unlock pair on every path of the engine functions and the recursion runs unlocked; from Start/Update/UpdateFromBytes/WaitingFor of all six parties, round code, the current-round pointer and the party's message store/temp data are only reached with the party mutex held; all 15 goroutines started under update entry points are joined (balanced WaitGroup, one receive per sender, counted receive or select join) before results are read or the spawner returns, write only their own slot or channel, and shared result channels drained after the join have capacity for every sender.",
          "§4.9",
          "Not decided: result equivalence between concurrent and sequential delivery; races inside dependencies."),
+ "C10": ("role-sequence agreement of prover/verifier challenge calls (flattened variadic arguments, API-position statement mapping), codec table extraction (Bytes/FromBytes/constructor/Unmarshal/ValidateBasic), commit/open arity agreement, blinded-scalar and hash-totality rules",
+         "For the nine proof systems the prover and verifier derive the challenge with the same hash (or helper) over role-wise equal ordered inputs and reduce it alike; the five byte codecs and the dln serializer agree position by position and on their part counts (decoder, constant, array type, ValidateBasic); messages write each proof with the encoder whose decoder their Unmarshal uses; commitments agree three ways on their arity; provers multiply points only by blinded scalars (so admissible zero witnesses do not hit the identity-point panic) and the hash functions return nil only for no input.",
+         "§4.10",
+         "Not decided: algebraic completeness at witness extremes and range slack (numeric); empty encodings of zero components."),
  "C12": ("Fiat-Shamir completeness by data-dependence over go/ssa (commitment classification, hash-input reachability through helpers), tag provenance, session-context index classes",
          "For each of the nine proof systems: every first-move commitment of the prover (a returned proof field not data-dependent on the challenge) flows into the challenge hash; the verifier's hash receives every commitment and every statement parameter (reasoned exemptions frozen per symbol); session parameters are exactly the tag of the tagged hash; every prover/verifier call in round code receives ssid||index with a role-consistent index class; no hash-input buffer is built with a truncating copy; the tagged hash writes H(tag) twice before the framed data.",
          "§4.12",
